@@ -1,9 +1,135 @@
 import CotengraVerif.Driver.Util
+import CotengraVerif.Model.Crash
 
 namespace Cotengra.Driver.C15
-open Lean Cotengra Cotengra.Driver
+open Lean Cotengra Cotengra.Driver Cotengra.Crash
+
+def nameOf (j : Json) : Except String Crash.Name := do pure (← j.getStr?).toList
+def pathOf (j : Json) : Except String Path := do (← arrOf j).mapM nameOf
+def jName (n : Crash.Name) : Json := jStr (String.ofList n)
+def jPath (p : Path) : Json := jArr (p.map jName)
+
+def fsOf (j : Json) : Except String FS := do
+  let files ← (← arrOf (← field j "files")).mapM fun r => do
+    match ← arrOf r with
+    | [p, b] => pure (← pathOf p, ← natList b)
+    | _ => throw "file = [path, bytes]"
+  let dirs ← (← arrOf (fieldD j "dirs" (jArr []))).mapM pathOf
+  pure (FS.ofList files dirs)
+
+def opOf (j : Json) : Except String Op := do
+  let kind ← (← field j "op").getStr?
+  match kind with
+  | "mkdir" => pure (.mkdir (← pathOf (← field j "p")))
+  | "create" => pure (.create (← pathOf (← field j "p")))
+  | "append" => pure (.append (← pathOf (← field j "p")) (← natList (← field j "b")))
+  | "rename" => pure (.rename (← pathOf (← field j "s")) (← pathOf (← field j "d")))
+  | "unlink" => pure (.unlink (← pathOf (← field j "p")))
+  | _ => throw s!"unknown fs op {kind}"
+
+def jOp : Op → Json
+  | .mkdir p => jObj [("op", jStr "mkdir"), ("p", jPath p)]
+  | .create p => jObj [("op", jStr "create"), ("p", jPath p)]
+  | .append p b => jObj [("op", jStr "append"), ("p", jPath p), ("b", jNats b)]
+  | .rename s d => jObj [("op", jStr "rename"), ("s", jPath s), ("d", jPath d)]
+  | .unlink p => jObj [("op", jStr "unlink"), ("p", jPath p)]
+
+def tableOf (j : Json) : Except String (List (Bytes × Nat)) := do
+  (← arrOf j).mapM fun r => do
+    match ← arrOf r with
+    | [b, i] => pure (← natList b, ← natOf i)
+    | _ => throw "table row = [bytes, id]"
+
+def jOptNat : Option Nat → Json
+  | some n => jNat n
+  | none => Json.null
+
+def jOptBytes : Option Bytes → Json
+  | some b => jNats b
+  | none => Json.null
+
+def jOld : OldLook Nat → Json
+  | .absent => jStr "absent"
+  | .found e => jNat e
+  | .raises => jStr "raises"
+
+def jOutcome : Outcome Nat → Json
+  | .hit e => jObj [("kind", jStr "hit"), ("entry", jNat e)]
+  | .searched w => jObj [("kind", jStr "searched"), ("entry", jNat w)]
+  | .raised => jObj [("kind", jStr "raised")]
+
+def protoOf (j : Json) (split : Bool) (k : Key) (tag : Crash.Name) (data : Bytes) : Except String (List Op) := do
+  match ← (← field j "protocol").getStr? with
+  | "atomic" => pure (writeAtomic split k tag data)
+  | "inplace" => pure (writeInplace split k data)
+  | s => throw s!"unknown protocol {s}"
+
+/-- `c15.steps`: the system calls of the modelled writer -/
+def steps : Handler := fun j => do
+  let split ← (← field j "split").getBool?
+  let k ← nameOf (← field j "key")
+  let tag ← nameOf (fieldD j "tag" (jStr "0"))
+  let data ← natList (← field j "data")
+  let ops ← protoOf j split k tag data
+  pure (jObj [("ops", jArr (ops.map jOp)), ("key_path", jPath (keyPath split k)),
+              ("tmp_path", jPath (tmpPath split k tag))])
+
+/-- `c15.crash`: every state the modelled writer can leave behind, seen through the probes:
+    file content at each probed key, and what both readers find there -/
+def crash : Handler := fun j => do
+  let fs ← fsOf (← field j "fs")
+  let split ← (← field j "split").getBool?
+  let k ← nameOf (← field j "key")
+  let tag ← nameOf (fieldD j "tag" (jStr "0"))
+  let data ← natList (← field j "data")
+  let ops ← match j.getObjVal? "ops" with
+    | .ok o => (← arrOf o).mapM opOf
+    | .error _ => protoOf j split k tag data
+  let tbl ← tableOf (← field j "table")
+  let probes ← (← arrOf (← field j "probes")).mapM nameOf
+  let C := tableCodec tbl
+  let states := crashStates fs ops
+  let rows := states.map fun s =>
+    jArr (probes.map fun q =>
+      jObj [("file", jOptBytes (s.files (keyPath split q))),
+            ("new", jOptNat (lookupNew C s split q)),
+            ("old", jOld (lookupOld C s split q))])
+  pure (jObj [("states", jArr rows), ("n", jNat states.length)])
+
+/-- `c15.admissible`: the verified trace checker on an observed system-call trace -/
+def admissibleOp : Handler := fun j => do
+  let fs ← fsOf (← field j "fs")
+  let f ← pathOf (← field j "f")
+  let B ← natList (← field j "data")
+  let ops ← (← arrOf (← field j "ops")).mapM opOf
+  let final := fs.run ops
+  pure (jObj [("admissible", jBool (admissible f B fs ops)),
+              ("admissible_prefix", jBool (admissibleP f B fs ops)), ("is_key_path", jBool (isKeyPath f)),
+              ("final_file", jOptBytes (final.files f))])
+
+/-- `c15.later`: a sequence of later fresh processes on a given directory content -/
+def later : Handler := fun j => do
+  let fs ← fsOf (← field j "fs")
+  let split ← (← field j "split").getBool?
+  let tag ← nameOf (fieldD j "tag" (jStr "0"))
+  let tbl ← tableOf (← field j "table")
+  let reader ← (← field j "reader").getStr?
+  let qs ← (← arrOf (← field j "queries")).mapM fun r => do
+    match ← arrOf r with
+    | [k, w] => pure (← nameOf k, ← natOf w)
+    | _ => throw "query = [key, id of what a search would find]"
+  let C := tableCodec tbl
+  let rec goNew (fs : FS) : List (Key × Nat) → List (Outcome Nat)
+    | [] => []
+    | (k, w) :: rest => let r := queryNew C split tag fs k w; r.2 :: goNew r.1 rest
+  let rec goOld (fs : FS) : List (Key × Nat) → List (Outcome Nat)
+    | [] => []
+    | (k, w) :: rest => let r := queryOld C split fs k w; r.2 :: goOld r.1 rest
+  let outs := if reader == "old" then goOld fs qs else goNew fs qs
+  pure (jObj [("outcomes", jArr (outs.map jOutcome))])
 
 /-- ops of property C15 (name them "c15.<op>") -/
-def handlers : List (String × Handler) := []
+def handlers : List (String × Handler) :=
+  [("c15.steps", steps), ("c15.crash", crash), ("c15.admissible", admissibleOp), ("c15.later", later)]
 
 end Cotengra.Driver.C15
